@@ -39,6 +39,10 @@ CHECKS = {
          TB + "For non-polynomial knot values 'equals the area' is decided at about 1e-4 relative resolution (fixed point), not 1e-9.", TECH, "4/C14"),
  "C15": ("On a log2 lattice (K = 2^e, levels at integral exponents) T - Tmin = A + B/ln 2 with A, B exact rationals computed segment by segment in Hydraulics.tla; TLC enumerates knot sets, exponent vectors (up to 14 binary orders) and levels, checks floor and monotonicity of both parts, and each case is replayed into the real SplineTransmissivity (value 1e-6 relative, scalar = array bit for bit, floor at and below the lowest knot, continuity at knots, monotone); random real parameters over 8 decades judged by TLC for monotonicity, floor and scalar/array agreement.",
          TB + "Accuracy of QUADPACK for arbitrary real knots is not decided beyond the lattice; relations (floor, monotone, scalar/array) are.", TECH, "4/C15"),
+ "C17": ("TLC enumerates polynomial specific yields x knot ranges x increasing level grids (inside, straddling and beyond the knots) with exact cumulative integrals (DifferencesAreIntegrals, MonotoneIfNonNegative as invariants of Hydraulics.tla); each is replayed into the real compute_rise_curve (differences = integrals at 1e-9, mean as requested, monotone when Sy >= 0); random spline / PEATCLSM parameters: refinement invariance and monotonicity judged by TLC in fixed point; CLI: `simulate rise` (table and --observations) on Hydro.tla datasets with polynomial parameter files, judged by TraceSim.tla (levels = the measured curve's, ascending, in mm; measured = view; differences = exact integrals; equal means; dataset unchanged).",
+         TB + "CLI-level integrals at 0.01 mm fixed-point resolution (32-bit TLC integers).", TECH, "4/C17"),
+ "C18": ("On TLC's (polynomial, knots, grid) cases the real compute_recession_curve is replayed in the two exactly solvable regimes (curvature 0; T = T_min below the lowest transmissivity knot): dt = -(integral of Sy)/(ET + curvature x T) at 1e-7, mean as requested, grid reversal; random spline / PEATCLSM parameters: refinement, reversal and time-increases-downward judged by TLC; CLI: `simulate recession` on Hydro.tla datasets with time-varying ET, curvature 0 and 250, judged by TraceSim.tla: levels in mm from highest to lowest, measured = view / 86400, and -dW/dt recovered per level pair from the two simulated curves = 24 x time-average ET over all steps of the member recession intervals + curvature x T_min.",
+         TB + "With level-dependent T the value of each cell integral is not decided (no closed form in rationals) -- only its relations. The ET pattern makes both readings of 'time steps of an interval' (with / without the step at the last sample) give the same average.", TECH, "4/C18"),
  "C20": ("TLC explores Spowtd.tla exhaustively (every history of the five steps with two argument values each, read-only commands, doomed attempts, Fail and Kill at every abstract write index) checking Atomic (action property), NoMixture, Rerunnable, Confluent and termination of every started step, and emits every edge; the harness replays EVERY edge against the real CLI on a small Hydro.tla dataset: one canonical logical dump per abstract state, reproduced byte for byte by every history reaching it; faults (OperationalError) and kills (SIGKILL in a subprocess, hot journal) injected at the first / middle / last write and after the last write (thorough: every statement and every executemany row on a subset); after each the dump must equal the previous content and the step must re-run to the complete result; statement streams judged by TraceTxn.tla.",
          TB + "`load` is outside the property (its executescript commits the schema first). Write points are those visible to Python's sqlite3 layer (statements and executemany rows), not pager-level I/O.", "TLA+ model checking (TLC) of the command/transaction state machine + replay of every graph edge with fault and crash injection + trace validation of SQL statement streams", "4/C20"),
 }
